@@ -1,6 +1,7 @@
 //! C01, periodic-fsync clause: under `FsyncPolicy::Periodic(T)` every operation acknowledged more
 //! than T before a power loss must survive it. Time is the kvshim logical clock; histories are
-//! sequences of (gap, op) with gap in {0, 2.5 T} and a final idle gap before the failure.
+//! sequences of (gap, op) with gap in {0, 2.5 T} and a final idle gap before the failure, plus
+//! steady streams (gaps of 0.4 T / 0.6 T) in which syncs fall due in the middle of the stream.
 
 use crate::fsmodel::*;
 use serde_json::{json, Value};
@@ -72,6 +73,7 @@ pub fn run_case(cfg: &BackendCfg, hist: &[(i64, Op)], final_idle_ms: i64, scratc
         }
     };
     let pre = FsModel::from_dir(&dir);
+    let t_open = now_ns();
     sc::set_root(&dir.to_string_lossy());
     sc::ctl(sc::CMD_LOG_CLEAR, 0, 0);
     sc::ctl(sc::CMD_LOG_ON, 0, 0);
@@ -189,7 +191,46 @@ pub fn run_case(cfg: &BackendCfg, hist: &[(i64, Op)], final_idle_ms: i64, scratc
                                 }
                             }
                         }
-                        Some(format!("old-acked-op-lost|unsynced-in={where_}"))
+                        // Which ops did a DUE sync cover? Model of the documented policy: an
+                        // append (an op with a WAL write) at time t syncs iff t - last_sync >= T,
+                        // last_sync starting at the open. The known finding (no flusher task: an op
+                        // followed by nothing but idleness is never synced) only loses ops that no
+                        // due sync covers; losing an op a due sync DID cover is a different defect.
+                        let mut last_sync = t_open;
+                        let mut covered = 0usize; // ops [0, covered) are covered by a due sync of a completed op
+                        for (j, sp) in spans.iter().enumerate() {
+                            if sp.1 > i {
+                                break;
+                            }
+                            let appended = op_ok[j] && effects[sp.0..sp.1].iter().any(|e| e.kind == EKind::Write && role_of(&e.path) == "wal");
+                            if appended && sp.2 - last_sync >= INTERVAL_MS * 1_000_000 {
+                                last_sync = sp.2;
+                                covered = j + 1;
+                            }
+                        }
+                        let cov = covered.min(must);
+                        let mut explained_by_idle_gap = false;
+                        let free2 = hi - cov.min(hi);
+                        if free2 <= 16 {
+                            for mask in 0..(1u32 << free2) {
+                                let mut mm = RefModel::default();
+                                for (j, (_, op)) in hist.iter().enumerate().take(hi) {
+                                    let take = j < cov || (mask >> (j - cov)) & 1 == 1;
+                                    if take && op_ok[j] {
+                                        mm.apply(op);
+                                    }
+                                }
+                                if dump_vs_model(metric, d, &mm).is_ok() {
+                                    explained_by_idle_gap = true;
+                                    break;
+                                }
+                            }
+                        }
+                        if explained_by_idle_gap {
+                            Some(format!("old-acked-op-lost|unsynced-in={where_}"))
+                        } else {
+                            Some(format!("op-covered-by-a-due-sync-lost|unsynced-in={where_}"))
+                        }
                     }
                 }
             };
@@ -233,6 +274,26 @@ pub fn worker(i: usize, n: usize, tier: &str) -> PerStats {
                     }
                     let hist: Vec<(i64, Op)> = seq.iter().map(|&k| ls[k].clone()).collect();
                     run_case(&cfg, &hist, idle, &scratch, &mut st);
+                }
+            }
+        }
+    }
+    // steady streams: 3-6 acknowledged writes a fraction of the interval apart (0.4 T, 0.6 T), so
+    // that syncs fall due in the MIDDLE of the stream rather than after an idle gap, then a power
+    // loss right away or after a long idle
+    let ops = letters();
+    for cfg in cfgs() {
+        for gap in [40i64, 60] {
+            for len in 3..=6usize {
+                for rot in 0..2usize {
+                    for idle in [0, GAP_MS] {
+                        idx += 1;
+                        if idx % n != i {
+                            continue;
+                        }
+                        let hist: Vec<(i64, Op)> = (0..len).map(|k| (gap, ops[(k + rot * 2) % 4].1.clone())).collect();
+                        run_case(&cfg, &hist, idle, &scratch, &mut st);
+                    }
                 }
             }
         }
